@@ -7,7 +7,7 @@ Section Identity.
 Variable E : env.
 Hypothesis Hrt : o_resolve_type (e_opts E) = false.
 
-Local Notation V := (visit E (hook_call E) (hook_declarator E) (register_ts_decl E)).
+Local Notation V := (visit E (hook_call E) (hook_declarator E)).
 
 (* the state is untouched except for the recorded defineComponent binding *)
 Definition same_but_dc (s s' : st) : Prop := set_define_component None s = set_define_component None s'.
@@ -29,8 +29,8 @@ Lemma hook_call_off n s : hook_call E n s = (n, s).
 Proof. unfold hook_call. rewrite Hrt. reflexivity. Qed.
 Lemma hook_declarator_off n s : hook_declarator E n s = (n, s).
 Proof. unfold hook_declarator. rewrite Hrt. reflexivity. Qed.
-Lemma register_off n s : register_ts_decl E n s = s.
-Proof. unfold register_ts_decl. rewrite Hrt. reflexivity. Qed.
+Lemma collect_off m s : collect_ts_decls E subs m s = s.
+Proof. unfold collect_ts_decls. rewrite Hrt. reflexivity. Qed.
 
 Lemma post_import_same n s : same_but_dc s (post_import n s).
 Proof.
@@ -121,8 +121,6 @@ Proof.
       { eexists. split; [reflexivity|]. eapply same_trans; [exact S1|apply post_import_same]. }
       destruct (sq "VariableDeclarator" (ntype (NObj l))).
       { rewrite hook_declarator_off. exists s'. split; [reflexivity|exact S1]. }
-      destruct (sq "TsInterfaceDeclaration" (ntype (NObj l)) || sq "TsTypeAliasDeclaration" (ntype (NObj l))).
-      { rewrite register_off. exists s'. split; [reflexivity|exact S1]. }
       exists s'. split; [reflexivity|exact S1].
   - (* Field *)
     intros k v Hv Hf m s. jfree Hf. cbn [visit].
@@ -223,12 +221,13 @@ Qed.
 
 Theorem module_identity m :
   jsx_free m = true ->
-  fst (transform_module E (hook_call E) (hook_declarator E) (register_ts_decl E) m) = m.
+  fst (transform_module E (hook_call E) (hook_declarator E) (collect_ts_decls E subs) m) = m.
 Proof.
   intros Hf. unfold transform_module.
   repeat match goal with
          | |- fst (match ?x with _ => _ end) = _ => is_var x; destruct x; try reflexivity
          end.
+  rewrite collect_off.
   match goal with |- context [visit_list_with _ _ ?l ?s0] =>
     pose proof (module_items_free _ _ _ _ _ Hf) as Hitems;
     assert (Hl : Forall Idn l) by (apply Forall_forall; intros x _; apply visit_identity);
